@@ -186,7 +186,7 @@ func execFiles(args []sx.Sexp) core.Result {
 
 func genFiles(g *core.G) {
 	// exhaustive: files {a}; two threads, programs of <= 2 loads over {a, A, b}; a load needs <= 4 slots: every schedule for
-	// single loads (quick) / all pairs (thorough), every schedule with <= 2 switches otherwise (quick)
+	// single loads (thorough: up to three loads in total), every schedule with <= 2 (thorough: 3) switches otherwise
 	names := []string{"x61", "x41", "x62"}
 	var progs [][]string
 	for _, x := range names {
@@ -208,10 +208,13 @@ func genFiles(g *core.G) {
 				continue
 			}
 			emit := func(s []int) { g.Emit("files (files x61) (threads " + th(p) + " " + th(q) + ") " + schedStr(s)) }
-			if len(p)+len(q) > 2 && !g.Thorough() {
-				bounded([]int{4 * len(p), 4 * len(q)}, 2, emit)
-			} else {
+			switch {
+			case len(p)+len(q) <= 2 || (g.Thorough() && len(p)+len(q) <= 3):
 				interleavings([]int{4 * len(p), 4 * len(q)}, emit)
+			case g.Thorough():
+				bounded([]int{4 * len(p), 4 * len(q)}, 3, emit)
+			default:
+				bounded([]int{4 * len(p), 4 * len(q)}, 2, emit)
 			}
 		}
 	}
